@@ -32,6 +32,9 @@ type SemOpts struct {
 	Off map[string]bool
 	// Bias
 	ManyTypes bool
+	// TypedefZoo: files declare a typedef for every root kind (each base type,
+	// binary, enum, struct, every container flavour, typedef of typedef)
+	TypedefZoo bool
 	// ChainMode: the include skeleton is a path f0 -> f1 -> ... (plus random
 	// extra edges from the root) and every file has a service extending the
 	// next file's service: long inheritance chains across modules
@@ -210,6 +213,17 @@ func GenProgram(r *core.Rand, o SemOpts) *Program {
 			g.declare(f, d)
 		}
 	}
+	if o.TypedefZoo {
+		for _, f := range g.p.Files {
+			if !r.Chance(2, 3) {
+				continue
+			}
+			g.curFile = f
+			for _, k := range r.Perm(len(zooKinds))[:r.Range(4, 9)] {
+				g.declare(f, &Typedef{Name: g.tname("Tz"), Zoo: zooKinds[k]})
+			}
+		}
+	}
 	if o.ChainMode && o.Services {
 		g.chainSvc = map[*File]*Service{}
 		for _, f := range g.p.Files {
@@ -231,6 +245,9 @@ func GenProgram(r *core.Rand, o SemOpts) *Program {
 		switch d := di.def.(type) {
 		case *Typedef:
 			d.Type = g.typeFor(di.file, di.rank, 2, false)
+			if d.Zoo != "" {
+				d.Type = g.zooType(di, d.Zoo)
+			}
 			d.Doc = g.doc()
 			if o.GoAnns && r.Chance(1, 6) {
 				d.Ann = append(d.Ann, Ann{Name: "go.name", Value: g.goName(), HasValue: true})
@@ -489,6 +506,81 @@ func (g *semGen) typeFor(f *File, maxTypedefRank int, depth int, key bool) *Type
 		}
 		return t
 	}
+}
+
+var zooKinds = []string{"bool", "i8", "i16", "i32", "i64", "double", "string", "binary", "enum", "struct", "list", "listbinary", "set", "setslice", "setunhash", "map", "mapunhash", "typedef", "typedef"}
+
+// zooType is the type of a typedef reserved for one root kind.
+func (g *semGen) zooType(di *defInfo, kind string) *TypeRef {
+	r := g.r
+	base := func(b BaseKind) *TypeRef { return &TypeRef{Kind: TBase, Base: b} }
+	named := func(want func(Def) bool) *TypeRef {
+		var cands []*TypeRef
+		for _, v := range g.visible(di.file) {
+			if td, ok := v.di.def.(*Typedef); ok && (v.di.rank >= di.rank || td.Type == nil) {
+				continue
+			}
+			if want(v.di.def) {
+				cands = append(cands, &TypeRef{Kind: TNamed, Name: v.qual + v.di.def.DefName(), Target: v.di.def, TFile: v.di.file})
+			}
+		}
+		if len(cands) == 0 {
+			return nil
+		}
+		return cands[r.Intn(len(cands))]
+	}
+	isStruct := func(d Def) bool { _, ok := d.(*Struct); return ok }
+	switch kind {
+	case "bool":
+		return base(BBool)
+	case "i8":
+		return base(BI8)
+	case "i16":
+		return base(BI16)
+	case "i32":
+		return base(BI32)
+	case "i64":
+		return base(BI64)
+	case "double":
+		return base(BDouble)
+	case "string":
+		return base(BString)
+	case "binary":
+		return base(BBinary)
+	case "enum":
+		if t := named(func(d Def) bool { _, ok := d.(*Enum); return ok }); t != nil {
+			return t
+		}
+	case "struct":
+		if t := named(isStruct); t != nil {
+			return t
+		}
+	case "list":
+		return &TypeRef{Kind: TList, Elem: g.typeFor(di.file, di.rank, 1, false)}
+	case "listbinary":
+		return &TypeRef{Kind: TList, Elem: base(BBinary)}
+	case "set":
+		return &TypeRef{Kind: TSet, Elem: base([]BaseKind{BI32, BString, BI64, BBool}[r.Intn(4)])}
+	case "setslice":
+		return &TypeRef{Kind: TSet, Elem: g.typeFor(di.file, di.rank, 1, true), Ann: []Ann{{Name: "go.type", Value: "slice", HasValue: true}}}
+	case "setunhash":
+		if t := named(isStruct); t != nil {
+			return &TypeRef{Kind: TSet, Elem: t}
+		}
+		return &TypeRef{Kind: TSet, Elem: &TypeRef{Kind: TList, Elem: base(BI32)}}
+	case "map":
+		return &TypeRef{Kind: TMap, Key: base([]BaseKind{BI32, BString, BI8}[r.Intn(3)]), Elem: g.typeFor(di.file, di.rank, 1, false)}
+	case "mapunhash":
+		if t := named(isStruct); t != nil && r.Bool() {
+			return &TypeRef{Kind: TMap, Key: t, Elem: g.typeFor(di.file, di.rank, 1, false)}
+		}
+		return &TypeRef{Kind: TMap, Key: &TypeRef{Kind: TSet, Elem: base(BString)}, Elem: base(BBinary)}
+	case "typedef":
+		if t := named(func(d Def) bool { _, ok := d.(*Typedef); return ok }); t != nil {
+			return t
+		}
+	}
+	return g.typeFor(di.file, di.rank, 2, false)
 }
 
 func (g *semGen) fillEnum(e *Enum) {
